@@ -60,10 +60,12 @@ func genHspec(r *rand.Rand) hspec {
 		switch {
 		case x < 10:
 			h.Acts = append(h.Acts, act{Op: "ev"})
-		case x < 16:
+		case x < 14:
 			h.Acts = append(h.Acts, act{Op: "write"})
+		case x < 16:
+			h.Acts = append(h.Acts, act{Op: "copy"}) // streaming a body with io.Copy from a plain reader
 		case x < 20:
-			h.Acts = append(h.Acts, act{Op: "header", Code: []int{201, 204, 404, 500, 302}[r.Intn(5)]})
+			h.Acts = append(h.Acts, act{Op: "header", Code: []int{201, 204, 404, 500, 302, 100, 102, 103, 199, 101}[r.Intn(10)]})
 		case x < 35:
 			h.Acts = append(h.Acts, act{Op: "next"})
 		case x < 37:
@@ -220,7 +222,7 @@ func (s *chainSim) exec(i int, h *hspec) {
 			switch a.Op {
 			case "ev":
 				s.tr = append(s.tr, fmt.Sprintf("ev%d.%d", i, k))
-			case "write":
+			case "write", "copy":
 				s.write(fmt.Sprintf("w%d.%d;", i, k))
 			case "header":
 				s.header(a.Code)
@@ -271,6 +273,14 @@ func (s *chainSpy) WriteHeader(c int) {
 	}
 	*s.tr = append(*s.tr, fmt.Sprintf("spy:H%d", c))
 }
+
+// ReadFrom: like net/http's writer, the spy also offers io.ReaderFrom.
+func (s *chainSpy) ReadFrom(r io.Reader) (int64, error) {
+	b, _ := io.ReadAll(r)
+	n, err := s.Write(b)
+	return int64(n), err
+}
+
 func (s *chainSpy) Write(b []byte) (int, error) {
 	if s.status == 0 {
 		s.status = 200
@@ -303,6 +313,8 @@ func (x *chainExec) mk(i int, h *hspec) flamego.Handler {
 				x.tr = append(x.tr, fmt.Sprintf("ev%d.%d", i, k))
 			case "write":
 				_, _ = c.ResponseWriter().Write([]byte(fmt.Sprintf("w%d.%d;", i, k)))
+			case "copy":
+				_, _ = io.Copy(c.ResponseWriter(), plainReader{strings.NewReader(fmt.Sprintf("w%d.%d;", i, k))})
 			case "header":
 				c.ResponseWriter().WriteHeader(a.Code)
 			case "next":
@@ -532,6 +544,11 @@ func judgeChain(w *core.W, c *chainCase) {
 			case "next":
 				n++
 			case "write", "header", "cancel", "panic":
+				eff = true
+			}
+		}
+		for _, a := range h.Acts {
+			if a.Op == "copy" {
 				eff = true
 			}
 		}
